@@ -168,6 +168,8 @@ SPEC["C18"] = {
          "a byte sequence that is no token, after a prefix of the grammar: reported at the place where no rule matches"),
         ("C18_inner_test_at_token", "RejectFacts.inner_test_rejected",
          "a non-test, an unknown name or no name at all at the first position of a test list / after `not`: reported at that token"),
+        ("C18_test_list_later_at_token", "RejectFacts.test_list_later_rejected",
+         "malformed test lists (later positions): reported at the token that cannot continue the list"),
         ("C18_test_argument_at_token", "RejectFacts.test_argument_rejected",
          "a tag the test does not take / whose extension is not loaded, an ill-typed value in a test: reported at that token"),
         ("C18_lexer_moves_forward", "RejectFacts.lex_order",
@@ -300,6 +302,10 @@ SPEC["C01"] = {
          "the first test of a test list and the test of `not`: an unknown name, the name of an action or control, any other token -- rejected at that token"),
         ("C01_inner_test_examples", "RejectExamples.ex_unknown_in_test_list",
          "non-vacuity: `if anyof (foo, true)` (with ex_action_after_not, ex_string_after_not)"),
+        ("C01_test_list_later_rejected", "RejectFacts.test_list_later_rejected",
+         "later positions of a test list (after any number of complete tests of the grammar): a missing comma, a comma before ')', an unknown name or an action after a comma -- rejected at that token"),
+        ("C01_test_list_later_examples", "RejectExamples.ex_missing_comma_in_test_list",
+         "non-vacuity: `if anyof (true true)` (with ex_unknown_after_comma, ex_comma_before_paren)"),
         ("C01_test_argument_rejected", "RejectFacts.test_argument_rejected",
          "in the arguments of a test that still needs arguments: a tag it does not take, a tag whose extension is not loaded, a value of the wrong type -- rejected at that token"),
         ("C01_test_argument_examples", "RejectExamples.ex_unknown_tag_in_test",
@@ -309,7 +315,7 @@ SPEC["C01"] = {
         ("C01_misplaced_else_example", "RejectExamples.ex_misplaced_else",
          "non-vacuity: `stop; else { stop; } keep;` rejected with 'must follow' at the closing brace, from the theorem"),
         ("C01_reject_examples", "RejectExamples.ex_unknown",
-         "non-vacuity on the generated tables (one of twenty-five examples in sieve/RejectExamples.v: prefix `require [\"fileinto\"]; if size :over 100K {`)"),
+         "non-vacuity on the generated tables (one of twenty-eight examples in sieve/RejectExamples.v: prefix `require [\"fileinto\"]; if size :over 100K {`)"),
         ("C01_accept_final_state", "GateFacts.parse_accept_reachable",
          "an accepted script ends with an empty command stack, balanced brackets and nothing expected"),
         ("raw", """(* which commands of the current tables the interpreter theorem covers (re-checked on every run) *)
